@@ -298,6 +298,8 @@ struct Regs {
     sp: u64,
     fp: u64,
     lr: u64,
+    /// Point the general-purpose registers at this address (+ small offsets).
+    near: Option<u64>,
 }
 
 fn context_section(arch: Arch, r: &Regs, rng: &mut Xoshiro) -> Section {
@@ -329,6 +331,17 @@ fn context_section(arch: Arch, r: &Regs, rng: &mut Xoshiro) -> Section {
             c.rsi = rng.next_u64();
             c.rdi = r.sp;
             c.r12 = rng.next_u64();
+            if let Some(a) = r.near {
+                let mut o = |k: u64| a.wrapping_add(k * 8).wrapping_add(rng.below(64) as u64);
+                c.rax = o(0);
+                c.rbx = o(1);
+                c.rdx = o(2);
+                c.rsi = o(3);
+                c.r8 = o(4);
+                c.r9 = o(5);
+                c.r10 = o(6);
+                c.r13 = o(7);
+            }
             bytes = vec![0u8; 1232];
             let n = bytes.pwrite_with(c, 0, scroll::LE).expect("ctx");
             bytes.truncate(n);
@@ -493,7 +506,11 @@ pub fn gen_world(opts: &WorldOpts) -> World {
             sp: sbase + (rng.below(4) as u64) * w,
             fp: 0,
             lr: pick_ret(&mut rng),
+            near: None,
         };
+        if rng.below(3) == 0 {
+            r.near = Some(sbase + (slen as u64 / 2 & !7));
+        }
         let shape_name: &'static str;
         match shape {
             0 | 1 => {
@@ -611,6 +628,8 @@ pub fn gen_world(opts: &WorldOpts) -> World {
 
     // exception
     let mut crashing = None;
+    let mut flip_stack: Option<u64> = None;
+    let mut exception_ctx_of: Option<u32> = None;
     if chance("dump.exception", 3, 4) {
         let t = &threads[ch("dump.exception.thread", threads.len() as u32) as usize];
         let mut ex = Exception::new(e);
@@ -622,13 +641,18 @@ pub fn gen_world(opts: &WorldOpts) -> World {
         };
         ex.exception_record.exception_code = code;
         ex.exception_record.exception_flags = flags;
-        let addr = match ch("dump.exc.addr", 6) {
+        let addr = match ch("dump.exc.addr", 8) {
             0 => 0,
             1 => t.sp.wrapping_sub(8),
             2 => t.ip,
             3 => u64::MAX,
             4 => 0x8000_0000_0000,
-            _ => 0x80400,
+            5 => 0x80400,
+            _ => {
+                // one flipped bit away from the middle of the crashing thread's stack
+                flip_stack = Some(t.stack_base);
+                (t.stack_base + (t.stack_len as u64 / 2 & !7)) ^ (1u64 << ch("dump.exc.flipbit", if w == 4 { 32 } else { 48 }))
+            }
         };
         ex.exception_record.exception_address = addr;
         ex.exception_record.number_parameters = ch("dump.exc.nparams", if adv { 16 } else { 3 });
@@ -637,6 +661,9 @@ pub fn gen_world(opts: &WorldOpts) -> World {
         ex.exception_record.exception_information[2] = 0xC000_0005;
         synth = synth.add_exception(ex);
         crashing = Some(t.id);
+        if !chance("dump.exc.no_context", 1, 8) {
+            exception_ctx_of = Some(t.id);
+        }
         // code bytes at the crashing ip (for instruction analysis on amd64)
         if chance("dump.exc.code_memory", 1, 2) {
             const SNIPPETS: [&[u8]; 10] = [
@@ -686,11 +713,11 @@ pub fn gen_world(opts: &WorldOpts) -> World {
         misc.process_id = Some(4242);
         synth = synth.add_stream(misc);
     }
-    if streams & 8 != 0 {
+    if streams & 8 != 0 || flip_stack.is_some() {
         // memory info list, with extreme ranges when adversarial
         let regions: [(u64, u64, u32); 5] = [
             (0x80000, 0x80000, 0x04),
-            (t_sp(&threads[0]) & !0xfff, 0x1000, 0x104),
+            (flip_stack.unwrap_or(t_sp(&threads[0])) & !0xfff, 0x4000, if flip_stack.is_some() { 0x04 } else { 0x104 }),
             (u64::MAX - 0xfff, 0x1000, 0x01),
             (0x7000_0000_0000, u64::MAX, 0x20),
             (0, 0x1000, 0x01),
@@ -760,7 +787,10 @@ pub fn gen_world(opts: &WorldOpts) -> World {
         synth = synth.set_soft_errors("[{\"InitErrors\": [{\"StopProcessFailed\": {\"Stop\": \"EPERM\"}}]}]");
     }
 
-    let dump = synth.finish().expect("synth dump");
+    let mut dump = synth.finish().expect("synth dump");
+    if let Some(tid) = exception_ctx_of {
+        patch_exception_context(&mut dump, tid);
+    }
     let describe = json!({
         "arch": arch.name(),
         "os": os.name(),
@@ -832,6 +862,41 @@ pub fn storage_fault(dump: &mut Vec<u8>) -> &'static str {
             let at = range("storage.hdr_flip_at", 0, (dump.len().min(4096) - 1) as u64) as usize;
             dump[at] ^= 1 << ch("storage.flip_bit", 8);
             "header bit flip"
+        }
+    }
+}
+
+fn rd32(b: &[u8], at: usize) -> Option<u32> {
+    b.get(at..at + 4).map(|x| u32::from_le_bytes(x.try_into().unwrap()))
+}
+
+/// Point the exception stream's thread_context at the context of thread `tid` (minidump-synth
+/// leaves that location descriptor empty).  Pure byte surgery on the little-endian dump.
+fn patch_exception_context(dump: &mut [u8], tid: u32) {
+    let (Some(count), Some(dir)) = (rd32(dump, 8), rd32(dump, 12)) else { return };
+    let mut exc_rva = None;
+    let mut threads_rva = None;
+    for i in 0..count as usize {
+        let e = dir as usize + i * 12;
+        let (Some(ty), Some(rva)) = (rd32(dump, e), rd32(dump, e + 8)) else { return };
+        if ty == 6 {
+            exc_rva = Some(rva as usize);
+        }
+        if ty == 3 {
+            threads_rva = Some(rva as usize);
+        }
+    }
+    let (Some(exc), Some(tl)) = (exc_rva, threads_rva) else { return };
+    let Some(n) = rd32(dump, tl) else { return };
+    for i in 0..n as usize {
+        let t = tl + 4 + i * 48;
+        if rd32(dump, t) == Some(tid) {
+            let (Some(size), Some(rva)) = (rd32(dump, t + 40), rd32(dump, t + 44)) else { return };
+            if exc + 168 <= dump.len() {
+                dump[exc + 160..exc + 164].copy_from_slice(&size.to_le_bytes());
+                dump[exc + 164..exc + 168].copy_from_slice(&rva.to_le_bytes());
+            }
+            return;
         }
     }
 }
